@@ -55,6 +55,8 @@ func (o pgOp) String() string {
 		return fmt.Sprintf("h%d.Dump(%s)+walk", o.H, o.Key)
 	case "ensure":
 		return fmt.Sprintf("h%d.ensureTable (the set-up step of Connect)", o.H)
+	case "connect":
+		return fmt.Sprintf("h%d.Connect (again, on the connected handle)", o.H)
 	case "prefix", "session", "lang":
 		return fmt.Sprintf("h%d.Set%s(%q)", o.H, o.Kind, o.Arg)
 	}
@@ -103,6 +105,9 @@ func genPgHistory(t *tape.Tape) []pgOp {
 			n := t.Range(1, 3)
 			for i := 0; i < n; i++ {
 				switch {
+				case t.Chance(1, 12):
+					// Connect on a handle that is connected: documented as ignored
+					ops = append(ops, pgOp{H: h, Kind: "connect"})
 				case t.Chance(1, 8):
 					ops = append(ops, pgOp{H: h, Kind: "dump", Key: []string{"k", "k1", "a"}[t.Int(3)]})
 				case t.Chance(2, 3):
@@ -295,6 +300,8 @@ func runPgHistory(ops []pgOp, faults map[int]int) *pgResult {
 			pm, pat = world.Guard(func() { err = h.store.Put(ctx, []byte(op.Key), []byte(op.Val)) })
 		case "get":
 			pm, pat = world.Guard(func() { got, err = h.store.Get(ctx, []byte(op.Key)) })
+		case "connect":
+			pm, pat = world.Guard(func() { err = h.store.Connect(ctx, "postgres://already@connected/ignored") })
 		case "ensure":
 			en, ok := h.store.(interface {
 				VerifEnsureTable(context.Context) error
